@@ -44,6 +44,7 @@ def explain(orc, t, cost, l, r, retained, depth=0):
     return False, why
 
 
+@core.safe_case
 def one(ctx, pts, cfg, family):
     res = rdpfam.run_case(ctx, 'rdp', pts, cfg, family)
     n = len(pts)
